@@ -99,3 +99,107 @@ Proof.
     + rewrite N.add_0_r. f_equal. rewrite H1, <- seq_shift, map_map. apply map_ext. intros k. f_equal. lia.
     + constructor; assumption.
 Qed.
+
+(* ------------------------------------------------------------------ what a signal of a leaf type becomes *)
+(* kind, encoding and bit range that the type decides *)
+Definition leaf_shape (ty : vtype) (tn : name) : option (N * sig_enc * option (Z * Z)) :=
+  match ty with
+  | TNineBit _ | TBit _ => Some (bit_var_type tn, EncBits 1, None)
+  | TI32 _ _ => Some (VarType_Integer, EncBits 32, None)
+  | TF64 _ => Some (VarType_Real, EncReal, None)
+  | TNineVec _ (IR _ l r) | TBitVec _ (IR _ l r) =>
+      Some (vec_var_type tn, bits_enc (Z.to_N (Z.abs (ir_len (match ty with TNineVec _ rg | TBitVec _ rg => rg | _ => IR false 0 0 end))) mod 4294967296),
+            Some (l, r))
+  | _ => None
+  end.
+
+(* a signal of a scalar or vector type (not an enumeration, not empty) becomes exactly one variable: its name, the kind the
+   type name decides, the direction of the declaration, the width and - for a vector - the declared range *)
+Theorem ghw_leaf_var debug f strings types max_id dir g nm tid inp ty tn vt enc idx g' r :
+  get_type_and_name debug strings types tid = Ok (ty, tn) ->
+  leaf_shape ty tn = Some (vt, enc, idx) ->
+  (match ty with TNineVec _ rg | TBitVec _ rg => Z.to_N (Z.abs (ir_len rg)) mod 4294967296 <> 0 /\
+                                                  (match rg with IR _ l rr => (-2147483648 < l - rr < 2147483648)%Z end)
+            | _ => True end) ->
+  add_var debug (S f) strings types max_id dir g nm tid inp = Ok (g', r) ->
+  exists ref, g_calls g' = g_calls g ++ [FcVar nm vt dir enc idx ref None (Some tn)].
+Proof.
+  intros Hty Hshape Hvec H. cbn [add_var] in H. rewrite Hty in H. cbn [bind] in H.
+  destruct ty as [n|n rg|n|n rg|n b|n rg|n rg|n|n fs|n lits eid|n el rg]; cbn [leaf_shape] in Hshape; try discriminate.
+  - (* TNineBit *) injection Hshape as <- <- <-.
+    destruct (read_signal_id max_id inp) as [[idx0 r0]| |]; cbn [bind] in H; try discriminate.
+    destruct (register_bit_vec (g_tracker g) idx0 idx0 false) as [[t ref]| |]; cbn [bind] in H; try discriminate.
+    injection H as <- <-. exists ref. reflexivity.
+  - (* TNineVec *) destruct rg as [d l rr]. injection Hshape as <- <- <-. destruct Hvec as [Hnz Hw].
+    cbn [ir_len] in H, Hnz |- *.
+    match type of H with context [if ?c then _ else _] => destruct c eqn:E0 end; [apply N.eqb_eq in E0; contradiction|].
+    match type of H with context [read_sig_ids ?a ?b ?c ?d ?e] => destruct (read_sig_ids a b c d e) as [[ids r0]| |] end; cbn [bind] in H; try discriminate.
+    destruct (debug && negb (contiguous ids)); [discriminate|].
+    destruct (hd_error ids) as [mn|]; cbn [of_option bind] in H; [|discriminate].
+    destruct (hd_error (rev ids)) as [mx|]; cbn [of_option bind] in H; [|discriminate].
+    destruct (register_bit_vec (g_tracker g) mn mx false) as [[t ref]| |]; cbn [bind] in H; try discriminate.
+    assert (Hi : Model.VcdHeader.var_index_new l rr = Ok (l, rr)).
+    { unfold Model.VcdHeader.var_index_new, Model.VcdHeader.chk64, Model.VcdHeader.i64_min, Model.VcdHeader.i64_max.
+      replace ((l - rr <? -9223372036854775808) || (9223372036854775807 <? l - rr))%Z with false
+        by (symmetry; apply orb_false_iff; split; apply Z.ltb_ge; lia).
+      cbn [bind]. unfold Model.VcdHeader.wrap_i32.
+      destruct (Z.eq_dec (l - rr) 0) as [E|E].
+      - rewrite E. cbn. replace l with rr by lia. reflexivity.
+      - assert (Hm : ((l - rr) mod 4294967296 = if (l - rr <? 0)%Z then l - rr + 4294967296 else l - rr)%Z).
+        { destruct (Z.ltb_spec (l - rr) 0).
+          - symmetry. apply (Z.mod_unique_pos _ _ (-1)); lia.
+          - apply Z.mod_small. lia. }
+        rewrite Hm. destruct (Z.ltb_spec (l - rr) 0).
+        + replace (l - rr + 4294967296 <? 2147483648)%Z with false by (symmetry; apply Z.ltb_ge; lia).
+          replace (l - rr + 4294967296 - 4294967296)%Z with (l - rr)%Z by lia.
+          replace (l - rr =? 0)%Z with false by (symmetry; apply Z.eqb_neq; exact E).
+          replace (l - rr =? -2147483648)%Z with false by (symmetry; apply Z.eqb_neq; lia).
+          f_equal. f_equal. lia.
+        + replace (l - rr <? 2147483648)%Z with true by (symmetry; apply Z.ltb_lt; lia).
+          replace (l - rr =? 0)%Z with false by (symmetry; apply Z.eqb_neq; exact E).
+          replace (l - rr =? -2147483648)%Z with false by (symmetry; apply Z.eqb_neq; lia).
+          f_equal. f_equal. lia. }
+    rewrite Hi in H. cbn [bind] in H. injection H as <- <-. exists ref. reflexivity.
+  - (* TBit *) injection Hshape as <- <- <-.
+    destruct (read_signal_id max_id inp) as [[idx0 r0]| |]; cbn [bind] in H; try discriminate.
+    destruct (register_bit_vec (g_tracker g) idx0 idx0 true) as [[t ref]| |]; cbn [bind] in H; try discriminate.
+    injection H as <- <-. exists ref. reflexivity.
+  - (* TBitVec *) destruct rg as [d l rr]. injection Hshape as <- <- <-. destruct Hvec as [Hnz Hw].
+    cbn [ir_len] in H, Hnz |- *.
+    match type of H with context [if ?c then _ else _] => destruct c eqn:E0 end; [apply N.eqb_eq in E0; contradiction|].
+    match type of H with context [read_sig_ids ?a ?b ?c ?d ?e] => destruct (read_sig_ids a b c d e) as [[ids r0]| |] end; cbn [bind] in H; try discriminate.
+    destruct (debug && negb (contiguous ids)); [discriminate|].
+    destruct (hd_error ids) as [mn|]; cbn [of_option bind] in H; [|discriminate].
+    destruct (hd_error (rev ids)) as [mx|]; cbn [of_option bind] in H; [|discriminate].
+    destruct (register_bit_vec (g_tracker g) mn mx true) as [[t ref]| |]; cbn [bind] in H; try discriminate.
+    assert (Hi : Model.VcdHeader.var_index_new l rr = Ok (l, rr)).
+    { unfold Model.VcdHeader.var_index_new, Model.VcdHeader.chk64, Model.VcdHeader.i64_min, Model.VcdHeader.i64_max.
+      replace ((l - rr <? -9223372036854775808) || (9223372036854775807 <? l - rr))%Z with false
+        by (symmetry; apply orb_false_iff; split; apply Z.ltb_ge; lia).
+      cbn [bind]. unfold Model.VcdHeader.wrap_i32.
+      destruct (Z.eq_dec (l - rr) 0) as [E|E].
+      - rewrite E. cbn. replace l with rr by lia. reflexivity.
+      - assert (Hm : ((l - rr) mod 4294967296 = if (l - rr <? 0)%Z then l - rr + 4294967296 else l - rr)%Z).
+        { destruct (Z.ltb_spec (l - rr) 0).
+          - symmetry. apply (Z.mod_unique_pos _ _ (-1)); lia.
+          - apply Z.mod_small. lia. }
+        rewrite Hm. destruct (Z.ltb_spec (l - rr) 0).
+        + replace (l - rr + 4294967296 <? 2147483648)%Z with false by (symmetry; apply Z.ltb_ge; lia).
+          replace (l - rr + 4294967296 - 4294967296)%Z with (l - rr)%Z by lia.
+          replace (l - rr =? 0)%Z with false by (symmetry; apply Z.eqb_neq; exact E).
+          replace (l - rr =? -2147483648)%Z with false by (symmetry; apply Z.eqb_neq; lia).
+          f_equal. f_equal. lia.
+        + replace (l - rr <? 2147483648)%Z with true by (symmetry; apply Z.ltb_lt; lia).
+          replace (l - rr =? 0)%Z with false by (symmetry; apply Z.eqb_neq; exact E).
+          replace (l - rr =? -2147483648)%Z with false by (symmetry; apply Z.eqb_neq; lia).
+          f_equal. f_equal. lia. }
+    rewrite Hi in H. cbn [bind] in H. injection H as <- <-. exists ref. reflexivity.
+  - (* TI32 *) injection Hshape as <- <- <-.
+    destruct (read_signal_id max_id inp) as [[idx0 r0]| |]; cbn [bind] in H; try discriminate.
+    destruct (register_scalar (g_tracker g) idx0 5) as [[t ref]| |]; cbn [bind] in H; try discriminate.
+    injection H as <- <-. exists ref. reflexivity.
+  - (* TF64 *) injection Hshape as <- <- <-.
+    destruct (read_signal_id max_id inp) as [[idx0 r0]| |]; cbn [bind] in H; try discriminate.
+    destruct (register_scalar (g_tracker g) idx0 6) as [[t ref]| |]; cbn [bind] in H; try discriminate.
+    injection H as <- <-. exists ref. reflexivity.
+Qed.
